@@ -355,72 +355,33 @@ func checkLayerConsumption(c *Ctx, r *Report) {
 			r.Lost("ipmi." + tn + ".DecodeFromBytes")
 			continue
 		}
-		data := fn.Params[1]
-		ok := false
+		// asked of engine E1/E2: in every state that stores the layer's payload, the value is a
+		// window of the input that is shorter than the input — whichever way the decoder walks
+		// through it (fixed offsets, a cursor re-sliced as it goes, staged helpers)
+		ok := true
 		n := 0
-		var walk func(f *ssa.Function, d ssa.Value, known map[ssa.Value]int64)
-		walk = func(f *ssa.Function, d ssa.Value, known map[ssa.Value]int64) {
-			allInstrs(f, false, func(in ssa.Instruction) {
-				if sel, _, st, isSt := storeSel(in); isSt && strings.HasSuffix(sel, "Payload") {
-					n++
-					// value must be Slice(d, lo, hi) with lo ≥ 1
-					if sl, isSl := st.Val.(*ssa.Slice); isSl && sl.X == d {
-						if sl.Low != nil {
-							if lb, has := lowerBoundWith(sl.Low, known); has && lb >= 1 {
-								ok = true
-								return
-							}
-							// cipher block size (field fact: 16)
-							if call, isCall := sl.Low.(*ssa.Call); isCall && calleeName(&call.Call) == "(crypto/cipher.Block).BlockSize" {
-								ok = true
-								return
-							}
-						}
-					}
-					ok = false
-				}
-			})
-			// helpers called with the same data: integer parameters get the minimum constant passed at the call sites in f
-			callees := map[*ssa.Function]map[ssa.Value]int64{}
-			dataParam := map[*ssa.Function]ssa.Value{}
-			allInstrs(f, false, func(in ssa.Instruction) {
-				call, isCall := in.(*ssa.Call)
-				if !isCall {
-					return
-				}
-				sf := call.Call.StaticCallee()
-				if sf == nil || !c.InModule(sf) || sf.Blocks == nil {
-					return
-				}
-				for i, a := range call.Call.Args {
-					if a == d && i < len(sf.Params) {
-						dataParam[sf] = sf.Params[i]
-					}
-				}
-				if _, has := dataParam[sf]; !has {
-					return
-				}
-				if callees[sf] == nil {
-					callees[sf] = map[ssa.Value]int64{}
-				}
-				for i, a := range call.Call.Args {
-					if i >= len(sf.Params) {
-						continue
-					}
-					if lb, has := lowerBoundWith(a, known); has && isIntType(a.Type()) {
-						if cur, seen := callees[sf][sf.Params[i]]; !seen || lb < cur {
-							callees[sf][sf.Params[i]] = lb
-						}
-					}
-				}
-			})
-			for sf, kn := range callees {
-				if sf != f {
-					walk(sf, dataParam[sf], kn)
-				}
+		e := newLenflow(c, 6)
+		e.bits = true
+		e.elemLoads = map[Sym]lfElemRef{}
+		e.onHeapStore = func(st *lfState, x *ssa.Store, p vPtr, sv lfVal) {
+			if p.Obj != e.recvObj || !strings.HasSuffix(p.Path, ".Payload") {
+				return
+			}
+			n++
+			sl, isSl := sv.(vSlice)
+			if !isSl || sl.Org == nil || sl.Org.Name != "d" || e.dLen == nil {
+				ok = false
+				return
+			}
+			// len(payload) ≤ len(data) − 1
+			if !entails(st.cons, leq(sl.Len, e.dLen.addConst(-1))) {
+				ok = false
 			}
 		}
-		walk(fn, data, nil)
+		e.runEntry(fn, nil)
+		if e.budgetHit {
+			ok = false
+		}
 		r.Check(ok && n > 0, "ipmi."+tn+".DecodeFromBytes|payload is a strict sub-slice", fn.Pos(), "payload starts after at least one consumed byte", "the layer's payload is not a strict sub-slice of its input: gopacket's decode loop may not make progress")
 	}
 	// selector
